@@ -82,6 +82,11 @@ def main():
     if a.cmd == "all":
         ids = sorted(x for x in os.listdir(os.path.join(VERIF, "seeded"))
                      if os.path.exists(os.path.join(VERIF, "seeded", x, "meta.json")))
+    # one user of a given scratch worktree / alt build at a time (concurrent runs would reset
+    # each other's patch mid-build)
+    import fcntl
+    lock = open(WT.rstrip("/") + ".lock", "w")
+    fcntl.flock(lock, fcntl.LOCK_EX)
     summary = {}
     for sid in ids:
         summary[sid] = run_one(sid, a.tier, a.props.split(",") if a.props else None)
